@@ -8,8 +8,8 @@
       written under the empty key are attributed to the next key;
     * `directIndex.Add` ignores the error of `flush` (too many entries): the
       entries stay and the next key's are appended to them;
-    * `UnmarshalBinary` starts the max-time scan at 0 and looks only at the first
-      entry's MinTime and the last entry's MaxTime of every key.
+    * `UnmarshalBinary` looks only at the first entry's MinTime and the last
+      entry's MaxTime of every key.
   The checksum is a parameter (`crc`), the layout constants are the translated
   ones (Generated/TsmLayout.lean).
 -/
